@@ -442,14 +442,17 @@ impl<T: GseDecapMemory, C: CrcCalculator, MHEM: MandatoryHeaderExtensionManager>
             LabelType::ReUse => match self.last_label {
                 Some(Label::Broadcast) => {
                     self.last_label = None;
+                    self.memory.provision_storage(pdu_buffer).unwrap();
                     return Err((DecapError::ErrorLabelBroadcastSaved, pkt_len));
                 }
                 Some(Label::ReUse) => {
                     self.last_label = None;
+                    self.memory.provision_storage(pdu_buffer).unwrap();
                     return Err((DecapError::ErrorLabelReUseSaved, pkt_len));
                 }
                 None => {
                     self.last_label = None;
+                    self.memory.provision_storage(pdu_buffer).unwrap();
                     return Err((DecapError::ErrorNoLabelSaved, pkt_len));
                 }
                 _ => self.last_label.unwrap(),
